@@ -424,12 +424,15 @@ def _work_ipm(item):
 
 
 def coq_ipm_case(case, out):
-    """(eps, A, b, w, xs, ss, y, zx, zs) for Ipm.gate; w is the sign-adjusted objective the solver works with."""
+    """(eps, A, b, w, xs, ss, y, zx, zs) for Ipm.gate; w is the sign-adjusted objective the solver works with.
+    The gate is evaluated exactly on the captured floats with eps' = 1e-8 * (1 + 1e-6): the code's own float evaluation of the
+    residual norms can differ from the exact one by a few ulps right at the threshold (seen: exact 1.0000000111e-8 vs float
+    9.99999994e-9); C03_ipm_gate is parametric in eps, so the conclusion then holds with eps'."""
     n, m = len(case["c"]), len(case["b"])
     x, y, z = out["xyz"]
     w = [v if case["minimize"] else -v for v in case["c"]]
     return "(mkI {e} {A} {b} {w} {xs} {ss} {y} {zx} {zs})".format(
-        e=cq(Fraction(1, 10 ** 8)), A=clist(case["A"], lambda r: clist(r, _q)), b=clist(case["b"], _q), w=clist(w, _q),
+        e=cq(Fraction(1000001, 10 ** 14)), A=clist(case["A"], lambda r: clist(r, _q)), b=clist(case["b"], _q), w=clist(w, _q),
         xs=clist(x[:n], _q), ss=clist(x[n:], _q), y=clist(y, _q), zx=clist(z[:n], _q), zs=clist(z[n:], _q))
 
 
@@ -490,6 +493,8 @@ def run(ctx: Ctx):
         "theorems are for eps = 0; on every run the eps0_* lemmas check that eps = 0 and eps = 1e-10 take identical decisions on the explored "
         "inputs (cases where they differ are counted in histogram 'eps0_differs' and excluded from the claim)",
         "MAX_ITER answers are exempt from the verdict oracle (allowed by the property); Bland termination is not proved",
+        "interior point: the gate is evaluated exactly on the captured floats with eps' = 1e-8*(1+1e-6) (float rounding of the residual "
+        "norms at the threshold); C03_ipm_gate is parametric in eps",
         "interior point: Newton/Cholesky step not modelled; only the convergence gate is (Ipm.gate), evaluated on the captured final iterate",
         "interior point: the solver's max(eps, .) clamp leaves residuals ~ sqrt(k)*eps >= eps, so it almost never reaches its OPTIMAL gate "
         "(only on ~1x1 / 1x2 LPs; everything else runs all 100 iterations and answers FEASIBLE or MAX_ITER) - see histogram ipm_status; "
